@@ -35,11 +35,22 @@ if [ -n "$wide" ] && [ -z "${VERIF_NO_WIDE:-}" ]; then
     echo "note: wide instrumentation does not build on this tree; falling back to the narrow one"; tail -5 "$run/build.log"
   fi
 fi
+if [ -z "$built" ] && [ -z "${VERIF_FORCE_PLAIN:-}" ]; then
+  if ov=$("$VERIF/bin/overlaygen" -repo "$REPO" -verif "$VERIF" -out "$run" -goroot "$goroot") &&
+     (cd "$REPO" && go test -c -vet=off -tags verif -overlay "$ov" -o "$run/verif.test" . ) > "$run/build.log" 2>&1; then
+    built=1
+  else
+    echo "note: the access instrumentation does not build on this tree; falling back to import swaps only"; tail -5 "$run/build.log"
+  fi
+fi
 if [ -z "$built" ]; then
-  ov=$("$VERIF/bin/overlaygen" -repo "$REPO" -verif "$VERIF" -out "$run" -goroot "$goroot") || { echo "HARNESS-ERROR overlay generation failed"; exit 2; }
+  # last resort: no access instrumentation (C20 and C07 lose their statement-level scheduling points and say so)
+  mkdir -p "$run/p"
+  ov=$("$VERIF/bin/overlaygen" -plain -repo "$REPO" -verif "$VERIF" -out "$run/p" -goroot "$goroot") || { echo "HARNESS-ERROR overlay generation failed"; exit 2; }
   if ! (cd "$REPO" && go test -c -vet=off -tags verif -overlay "$ov" -o "$run/verif.test" . ) > "$run/build.log" 2>&1; then
     echo "HARNESS-ERROR build failed"; tail -40 "$run/build.log"; exit 2
   fi
+  export VERIF_PLAIN=1
 fi
 if [ "$REPO" != "/repo" ] && [ -z "${VERIF_OUT_DIR:-}" ]; then
   export VERIF_OUT_DIR=$VERIF/build/scratch-repo-out   # runs against a scratch copy never touch evidence/
